@@ -72,3 +72,10 @@ package cache
 //@   ensures  implies(rdsWrites != old(rdsWrites), rdsWrites == old(rdsWrites) + 1 && rdsLastKey == key && rdsLastSeconds >= 1)
 //@   ensures  implies(rdsWrites != old(rdsWrites) && expire > 0, real(rdsLastSeconds)*1000000000.0 >= real(expire) && real(rdsLastSeconds)*1000000000.0 < real(expire) + 1000000000.0)
 //@   modifies heap, rdsWrites, rdsLastKey, rdsLastVal, rdsLastSeconds, rdsWriteErr
+
+// cache.Cache as an interface (what sqlc relies on)
+//@ ghost var cacheDels int
+//@ ghost var cacheDelErr error
+//@ extern func (c Cache) DelCtx
+//@   ensures cacheDels == old(cacheDels) + 1 && result == cacheDelErr
+//@   modifies cacheDels, cacheDelErr
